@@ -34,6 +34,7 @@ def timeline_legA(ctx, want_sim=True):
     if want_sim:
         gens.append(("Gen_Timeline_sim.cfg" if ctx.quick() else "Gen_Timeline_simT.cfg", "-9,-3,1,20"))
         gens.append(("Gen_Timeline_long.cfg", "-3,2"))      # up to 12 keyframes
+        gens.append(("Gen_Timeline_many.cfg", "-3,0"))      # up to 40 keyframes with many repeated positions
         gens.append(("Gen_Timeline_near.cfg", "-3,0"))      # positions closer together than f32::EPSILON
     if not ctx.quick():
         gens.append(("Gen_Timeline_k3.cfg", "-3,4"))
@@ -41,6 +42,8 @@ def timeline_legA(ctx, want_sim=True):
         sub = None
         if cfg in ("Gen_Timeline_long.cfg", "Gen_Timeline_near.cfg"):
             sub = {"NRand": (60 if cfg.endswith("long.cfg") else 120) if ctx.quick() else 1500}
+        if cfg == "Gen_Timeline_many.cfg":
+            sub = {"NRand": 12 if ctx.quick() else 200}
         run = run_tlc(ctx, "Gen_Timeline", cfg, workers=4, capture="gen-" + cfg + ".txt", timeout=3000, subst=sub)
         n = count_replay(run["out"])
         if n == 0:
@@ -188,7 +191,7 @@ def c03(ctx):
 # =========================================================================================
 #  state animator: C04 C05 C06 C07
 # =========================================================================================
-NK = 6   # size of the animator configuration pool in MC_Animator.tla
+NK = 7   # size of the animator configuration pool in MC_Animator.tla
 
 
 def mc_animator(ctx):
